@@ -304,6 +304,49 @@ def run(F, R, tier):
                                 "contains", ("self.url", ["Uri::path"]), "'..'",
                                 "the traversal guard is str::contains(Uri::path(self.url), \"..\") - any '..' anywhere in the path")
 
+    # helper contract: a failed policy lookup stays a failure (the handler's Err -> 500 arm depends on it)
+    gar = F.body_of("azure_proxy_agent::proxy::proxy_authorizer::get_access_control_rules")
+    if not gar:
+        R.fail("C01.R7", "C01.R7:anchor-missing:get_access_control_rules", "-", "anchor-missing=proxy_authorizer::get_access_control_rules")
+    else:
+        Bg = mir.Body(gar, F)
+        R.touched(gar["id"])
+        bad = []
+        for o in Bg.origins(contracts.RET):
+            if o[0] == "call" and q.ends(o[1], "get_wireserver_rules", "get_imds_rules", "get_hostga_rules") and not o[3]:
+                continue
+            if o[0] == "agg" and str(o[1]).endswith("Result::Ok"):
+                # Ok(None) for destinations without rules
+                pay = set()
+                for s in Bg.blocks[o[2]]["stmts"]:
+                    if s["k"] == "assign" and s["rv"]["k"] == "agg" and s["rv"].get("variant") == "Ok":
+                        pay |= Bg.origins(s["rv"]["ops"][0])
+                if pay and all(x[0] == "agg" and str(x[1]).endswith("Option::None") for x in pay):
+                    continue
+                bad.append("Ok(%s)" % sorted(map(str, pay)))
+                continue
+            bad.append(str(o))
+        R.check(not bad, "C01.R7", "C01.R7:%s:lookup-result-passed-through" % gar["id"], "%s:%s" % (gar["file"], gar["line"]),
+                "get_access_control_rules returns the key keeper's Result unchanged (or Ok(None) for other destinations): a failed lookup is an Err",
+                "get_access_control_rules can turn the lookup's result into something else: %s - a failed policy lookup would no longer "
+                "reach the handler's 500 arm" % bad)
+
+    # ... and the three getters behind it report a dead / unreachable key keeper task as an error: their result is the channel
+    # round trip itself (send error or the receiver's result), never a locally built default
+    for nm in ("get_wireserver_rules", "get_imds_rules", "get_hostga_rules"):
+        gfn = F.body_of("azure_proxy_agent::shared_state::key_keeper_wrapper::KeyKeeperSharedState::" + nm)
+        if not gfn:
+            R.fail("C01.R7", "C01.R7:anchor-missing:%s" % nm, "-", "anchor-missing=KeyKeeperSharedState::%s" % nm)
+            continue
+        Bw = mir.Body(gfn, F)
+        R.touched(gfn["id"])
+        org = Bw.origins(contracts.RET)
+        okw = bool(org) and all(o[0] == "call" and (q.ends(o[1], "mpsc::Sender::send") or (q.ends(o[1], "oneshot::channel") and tuple(o[3]) == ("1",)))
+                                for o in org)
+        R.check(okw, "C01.R7", "C01.R7:%s:channel-failure-is-an-error" % gfn["id"], "%s:%s" % (gfn["file"], gfn["line"]),
+                "%s returns the send error or what the oneshot receiver yields - no default in place of a failed round trip" % nm,
+                "%s result origins: %s" % (nm, sorted(map(str, org))))
+
     if tier == "thorough":
         # R6: the /provision short-circuit reaches no send site
         pv = [c[0] for c in B.calls_named("ProxyServer::handle_provision_state_check_request")]
